@@ -776,6 +776,8 @@ class Interp:
                 acc = self.binop("add", acc, it, site)
             return acc
         if n in ("max", "min"):
+            if len(args) == 1 and isinstance(args[0], T.Term) and not isinstance(args[0].meta.get("length"), int):
+                return T.mk(f"py.{n}", (args[0],), origin=site)  # extremum of an abstract sequence (a shape of unknown rank): an opaque value
             items = self.iterate(args[0], site) if len(args) == 1 else list(args)
             if all(_is_static(i) for i in items):
                 return (max if n == "max" else min)(items)
